@@ -129,9 +129,9 @@ func isZeroWarrior(wd g.WarriorData) bool {
 }
 
 func runC05(c *Ctx) {
-	n := int64(40000)
+	n := int64(240000)
 	if c.Thorough() {
-		n = 2500000
+		n = 12000000
 	}
 	budget := 6 * time.Second
 	if c.Race {
@@ -375,9 +375,9 @@ func nearValid(r *Rng, text string, ninstr int, length int) (string, string) {
 
 func runC06(c *Ctx) {
 	runPinned(c, "C06")
-	n := int64(40000)
+	n := int64(240000)
 	if c.Thorough() {
-		n = 2500000
+		n = 12000000
 	}
 	tg := newTextGen()
 	c.Cases(n, func(idx int64, r *Rng) {
